@@ -18,6 +18,13 @@ Definition get_specifier (c : clause) : pyres spec := parse (TAlts [[c]]).
 (* _evaluate for a version-valued variable: Specifier(f"{op}{rhs}").contains(lhs) *)
 Definition atom_sem (c : clause) (v : version) : bool := clause_sem c v.
 
+(* a literal-on-the-left atom  "lit" op name  (stored with the reflected operator, reversed = True): _evaluate builds the
+   specifier from the operator AS WRITTEN and the environment value, and tests the literal: Specifier(f"{op_written}{env}").contains(lit).
+   c is the stored clause (reflected operator, literal); only meaningful for a FINAL literal (clause_sem models final candidates). *)
+Definition reflect_sop (o : sop) : sop :=
+  match o with OpLt => OpGt | OpLe => OpGe | OpGt => OpLt | OpGe => OpLe | o => o end.
+Definition atom_sem_rev (c : clause) (v : version) : bool := clause_sem (mkClause (reflect_sop (c_op c)) v) (c_ver c).
+
 (* the zero padding of from_specifier for python_full_version: the release segment is padded to X.Y.Z *)
 Definition pad_release (v : version) : version :=
   mkVer (epoch v) (release v ++ repeat 0 (3 - List.length (release v))) (pre v) (post v) (dev v).
@@ -111,6 +118,7 @@ Definition vmres_same (a b : vmres) : bool :=
 Inductive bcase :=
 | BView (c : clause) (r : pyres spec)                     (* MarkerExpression(name, op, value).specifier *)
 | BEval (c : clause) (v : version) (b : bool)             (* MarkerExpression(...).evaluate({name: v}) *)
+| BEvalRev (c : clause) (v : version) (b : bool)          (* MarkerExpression(name, reflected op, lit, reversed=True).evaluate({name: v}) *)
 | BBack (name : vname) (s : spec) (r : pyres fsres)       (* MarkerExpression.from_specifier(name, s) *)
 | BMerge (kind : bool) (name : vname) (c1 c2 : clause) (r : pyres vmres)    (* _merge_single_markers on two atoms of one variable *)
 | BMergePV (kind : bool) (c_pv c_full : clause) (r : pyres vmres)           (* ... on a python_version and a python_full_version atom *)
@@ -119,6 +127,7 @@ Definition check_bcase (c : bcase) : bool :=
   match c with
   | BView k r => res_same spec_same_s (get_specifier k) r
   | BEval k v b => Bool.eqb (atom_sem k v) b
+  | BEvalRev k v b => Bool.eqb (atom_sem_rev k v) b
   | BBack n s r => res_same fsres_same (from_specifier n s) r
   | BMerge k n c1 c2 r => res_same vmres_same (vmerge_same k n c1 c2) r
   | BMergePV k c1 c2 r => res_same vmres_same (vmerge_pv k c1 c2) r
